@@ -91,6 +91,15 @@ Theorem link_step_is_handle_frame : forall c inner st i d f frame, r_reasm c = t
 Proof. exact handle_frame_link_rx. Qed.
 Print Assumptions link_step_is_handle_frame.
 
+(* Exactly once at the forwarder: whatever dispatch queues for one packet, counted over ALL forwarding threads, satisfies
+   dl_once_ok: no thread gets it twice; an Interest goes to one thread; a Data with a 6-byte PIT token of ours goes to exactly
+   the thread the token names and nowhere else (to none if that thread does not exist); other Data once per prefix thread.
+   dl_once_ok is the predicate the runner evaluates on the implementation's recording threads after every frame. *)
+Theorem delivered_once_per_thread : forall c st i d raw tok mark nh cp st' out,
+  dispatch true c st i d raw tok mark nh cp = HOk st' out -> dl_once_ok (r_nthreads c) out = true.
+Proof. exact dispatch_once_lemma. Qed.
+Print Assumptions delivered_once_per_thread.
+
 (* The statement was false for the code before the repair: 3061-byte packet, MTU 1500, a 6-byte outgoing token - a frame
    larger than the MTU, and fragments without FragIndex/FragCount (replayed on the old code: docs/C10.md). *)
 Theorem frames_fit_refuted_before_fix :
